@@ -9,7 +9,10 @@
 //! * an NXDOMAIN of an untrusted server, an I/O error and a timeout let the search continue;
 //! * busy servers are retried after the other servers, after a back-off of 20 ms doubling per
 //!   round, as long as the back-off is below 300 ms;
-//! * nothing is started at or after `start + timeout`.
+//! * nothing is started at or after `start + timeout`;
+//! * a TCP connection that answered stays open and is used again by a later lookup; one that
+//!   failed, or that the server closed after answering, is replaced by a new one (the pool is
+//!   expected to recover from an idle connection the peer closed: the server is healthy).
 //!
 //! The walk answers one question only: *does the time budget allow a definitive response?* Where
 //! the documentation leaves a choice open the caller walks every admissible variant (server order
@@ -45,9 +48,20 @@ pub struct Variant {
     /// bit i: the i-th connection reset met by the walk is followed by one immediate re-attempt on
     /// a new connection (what a client does for a *reused* connection the peer had closed)
     pub reset_retry_mask: u32,
+    /// i-th entry: at the i-th attempt made while the pool holds a usable TCP connection to the
+    /// server and UDP is still allowed, the request goes over that connection (which protocol is
+    /// used when an established connection exists is not specified); missing entries = UDP
+    pub open_tcp_choices: Vec<bool>,
 }
 
-pub fn walk(servers: &[Srv], order: &[usize], conc: usize, t_ms: u64, v: &Variant) -> WalkOut {
+/// Returns the outcome and the number of open-TCP choice points met.
+pub fn walk(servers: &[Srv], order: &[usize], conc: usize, t_ms: u64, v: &Variant, alive0: &[bool]) -> (WalkOut, usize) {
+    let mut choice_points = 0usize;
+    let out = walk_inner(servers, order, conc, t_ms, v, alive0, &mut choice_points);
+    (out, choice_points)
+}
+
+fn walk_inner(servers: &[Srv], order: &[usize], conc: usize, t_ms: u64, v: &Variant, alive0: &[bool], choice_points: &mut usize) -> WalkOut {
     let mut t: u64 = 0;
     let mut queue: VecDeque<usize> = order.iter().copied().collect();
     let mut busy: Vec<usize> = vec![];
@@ -57,6 +71,8 @@ pub fn walk(servers: &[Srv], order: &[usize], conc: usize, t_ms: u64, v: &Varian
     let mut cnt: BTreeMap<(usize, bool), usize> = BTreeMap::new();
     let mut ccnt: BTreeMap<usize, usize> = BTreeMap::new();
     let mut resets_seen: u32 = 0;
+    // does the pool hold a usable (established, not yet failed) TCP connection to the server?
+    let mut alive: Vec<bool> = (0..servers.len()).map(|i| alive0.get(i).copied().unwrap_or(false)).collect();
     let mut rounds = 0;
 
     loop {
@@ -93,8 +109,13 @@ pub fn walk(servers: &[Srv], order: &[usize], conc: usize, t_ms: u64, v: &Varian
         // every member of the batch starts at t
         let mut results: Vec<(u64, u8, usize, Out)> = vec![];
         for &s in &batch {
-            let tcp = udp_off_all || udp_off[s];
-            let (end, out) = attempt(servers, s, tcp, t, t_ms, v, &mut cnt, &mut ccnt, &mut resets_seen);
+            let mut tcp = udp_off_all || udp_off[s];
+            if !tcp && alive[s] && servers[s].tcp.is_some() {
+                let i = *choice_points;
+                *choice_points += 1;
+                tcp = v.open_tcp_choices.get(i).copied().unwrap_or(false);
+            }
+            let (end, out) = attempt(servers, s, tcp, t, t_ms, v, &mut cnt, &mut ccnt, &mut resets_seen, &mut alive);
             // at equal instants an unjudged outcome is processed first (nothing is demanded then)
             let prio = if out == Out::Unjudged { 0 } else { 1 };
             results.push((end, prio, s, out));
@@ -132,25 +153,30 @@ fn attempt(
     cnt: &mut BTreeMap<(usize, bool), usize>,
     ccnt: &mut BTreeMap<usize, usize>,
     resets_seen: &mut u32,
+    alive: &mut [bool],
 ) -> (u64, Out) {
     let mut now = t;
     let mut retried = false;
     loop {
-        if tcp {
-            // every TCP attempt within one lookup opens a connection
+        if tcp && !alive[s] {
+            // no usable connection: open one
             let k = ccnt.entry(s).or_insert(0);
             let c = servers[s].tcp_conn.at(*k);
             *k += 1;
             match c {
-                ConnStep::Ok => {}
+                ConnStep::Ok => alive[s] = true,
                 ConnStep::Refused(l) | ConnStep::Timeout(l) => return (now + l, Out::Fail),
             }
         }
         let k = cnt.entry((s, tcp)).or_insert(0);
         let step = if tcp { servers[s].tcp.as_ref().unwrap().at(*k) } else { servers[s].udp.at(*k) };
         *k += 1;
+        // a transport error fails the connection; a response (whatever it says) keeps it
+        if tcp {
+            alive[s] = matches!(step, Step::Answer(_) | Step::NoData(_) | Step::NxDomain(_) | Step::Truncated(_) | Step::ServFail(_) | Step::Refused(_));
+        }
         return match step {
-            Step::Answer(l) | Step::NoData(l) => (now + l, Out::Definitive),
+            Step::Answer(l) | Step::AnswerClose(l) | Step::NoData(l) => (now + l, Out::Definitive),
             Step::NxDomain(l) => (now + l, if servers[s].trust_nx { Out::Definitive } else { Out::Fail }),
             Step::Truncated(l) => (now + l, if tcp { Out::Unjudged } else { Out::RetryTcp }),
             Step::Silent => (now + t_ms, Out::Fail),
@@ -182,7 +208,7 @@ pub fn admissible_orders(strategy: &str, n: usize) -> Vec<Vec<usize>> {
 
 /// `Some(true)`: every admissible variant reaches a definitive response strictly before the
 /// deadline (a definitive result is demanded). `Some(false)`: not demanded. `None`: unjudged.
-pub fn must_be_definitive(servers: &[Srv], strategy: &str, conc: usize, t_ms: u64) -> Option<bool> {
+pub fn must_be_definitive(servers: &[Srv], strategy: &str, conc: usize, t_ms: u64, alive0: &[bool]) -> Option<bool> {
     let mut all = true;
     // one choice bit per scripted reset (at most 6; later resets are not re-attempted)
     let resets: usize = servers
@@ -196,10 +222,22 @@ pub fn must_be_definitive(servers: &[Srv], strategy: &str, conc: usize, t_ms: u6
     for order in admissible_orders(strategy, servers.len()) {
         for persist_udp_off in [true, false] {
             for reset_retry_mask in 0..masks {
-                match walk(servers, &order, conc, t_ms, &Variant { persist_udp_off, reset_retry_mask }) {
-                    WalkOut::Unjudged => return None,
-                    WalkOut::Definitive(t) if t < t_ms => {}
-                    _ => all = false,
+                // depth-first over the open-TCP choice points the walk meets
+                let mut stack: Vec<Vec<bool>> = vec![vec![]];
+                while let Some(prefix) = stack.pop() {
+                    let plen = prefix.len();
+                    let (out, points) = walk(servers, &order, conc, t_ms, &Variant { persist_udp_off, reset_retry_mask, open_tcp_choices: prefix.clone() }, alive0);
+                    match out {
+                        WalkOut::Unjudged => return None,
+                        WalkOut::Definitive(t) if t < t_ms => {}
+                        _ => all = false,
+                    }
+                    for i in plen..points.min(8) {
+                        let mut q = prefix.clone();
+                        q.resize(i, false);
+                        q.push(true);
+                        stack.push(q);
+                    }
                 }
             }
         }
